@@ -1317,4 +1317,276 @@ theorem msg_chain_rest (nx : Nat) (all : List Ev) (Ls : List Level) : ∀ (c : C
             · simp [x]
             · simp [x])) hf2 (hp2 ▸ hw.2.2.2)
 
+/-! ## §F  messages of a losing branch: an invariant of every schedule of foreign events
+
+  `P` is the MLS path of a fork's parent state, `w` the ciphertext of the commit the client ends on, `LM` the message
+  ids of messages created on OTHER branches of that fork.  Whatever foreign events are delivered, in whatever order:
+  a row with an id of `LM` that is not invalidated carries an epoch tag later than the parent's, and while such a row
+  exists the client is not on the branch through `w` — because the only way from another branch of the fork to that
+  branch is a rollback to the parent epoch or below, which invalidates the row. -/
+
+/-- snapshots hold earlier states of the branch the client is on -/
+structure PrefInv (c : Cl) : Prop where
+  below : ∀ s ∈ c.mgr, s.saved.path <+: c.g.path
+  sorted : c.mgr.Pairwise (fun a b => a.saved.path <+: b.saved.path)
+
+structure RowInv (P : Path) (w : Nat) (LM : Nat → Prop) (c : Cl) : Prop where
+  /-- a row that is not invalidated was filed under an epoch the client has not rolled back beyond -/
+  bound : ∀ r ∈ c.msgs, r.state ≠ 3 → r.epoch ≤ epochOf c.g.path
+  losing : ∀ r ∈ c.msgs, LM r.mid → r.state ≠ 3 → epochOf P < r.epoch ∧ ¬ (P ++ [w]) <+: c.g.path
+
+def LI (P : Path) (w : Nat) (LM : Nat → Prop) (c : Cl) : Prop := PrefInv c ∧ RowInv P w LM c
+
+/-- every application message that carries an id of `LM` was created on a branch through another child of `P` than `w` -/
+def LosingEv (P : Path) (w : Nat) (LM : Nat → Prop) (e : Ev) : Prop :=
+  ∀ m, appMid e = some m → LM m → ∃ a, a ≠ w ∧ (P ++ [a]) <+: e.path
+
+theorem li_same {P : Path} {w : Nat} {LM : Nat → Prop} {c c' : Cl} (h : LI P w LM c) (hp : c'.g.path = c.g.path)
+    (hm : c'.mgr = c.mgr) (hmsgs : c'.msgs = c.msgs) : LI P w LM c' :=
+  ⟨⟨fun s hs => by rw [hp]; exact h.1.below s (hm ▸ hs), hm ▸ h.1.sorted⟩,
+   ⟨fun r hr => by rw [hp]; exact h.2.bound r (hmsgs ▸ hr), fun r hr => by rw [hp]; exact h.2.losing r (hmsgs ▸ hr)⟩⟩
+
+theorem prefix_snoc_cases {p q : Path} {x y : Nat} (h : p ++ [x] <+: q ++ [y]) : (p = q ∧ x = y) ∨ p ++ [x] <+: q := by
+  rcases List.prefix_concat_iff.mp h with z | z
+  · left
+    have := List.append_inj' z rfl
+    exact ⟨this.1, by simpa using this.2⟩
+  · exact Or.inr z
+
+theorem two_children {P q : Path} {a w : Nat} (h1 : P ++ [a] <+: q) (h2 : P ++ [w] <+: q) : a = w := by
+  obtain ⟨t1, rfl⟩ := h1
+  obtain ⟨t2, h2⟩ := h2
+  simp only [List.append_assoc, List.append_cancel_left_eq, List.singleton_append, List.cons.injEq] at h2
+  exact h2.1.symm
+
+/-- snapshot the current state, then move one commit on -/
+theorem li_extend {P : Path} {w : Nat} {LM : Nat → Prop} {c c' : Cl} (h : LI P w LM c) (e : Ev) (x : Nat)
+    (hm : c'.mgr = (mgrCreate c (epochOf c.g.path) e).mgr) (hmsgs : c'.msgs = c.msgs) (hp : c'.g.path = c.g.path ++ [x]) :
+    LI P w LM c' := by
+  have hq : ∀ s ∈ c.mgr ++ [({ epoch := epochOf c.g.path, commit := e.idnum, ts := e.ts, saved := c.g } : Snap)],
+      s.saved.path <+: c.g.path := by
+    intro s hs
+    rcases List.mem_append.mp hs with z | z
+    · exact h.1.below s z
+    · simp at z; subst z; exact List.prefix_refl _
+  have hsorted : (c.mgr ++ [({ epoch := epochOf c.g.path, commit := e.idnum, ts := e.ts, saved := c.g } : Snap)]).Pairwise
+      (fun a b => a.saved.path <+: b.saved.path) := by
+    apply List.pairwise_append.mpr
+    refine ⟨h.1.sorted, List.pairwise_singleton _ _, ?_⟩
+    intro a ha b hb
+    simp at hb; subst hb
+    exact h.1.below a ha
+  refine ⟨⟨?_, ?_⟩, ⟨?_, ?_⟩⟩
+  · intro s hs
+    rw [hm] at hs
+    rw [hp]
+    exact (hq s (List.mem_of_mem_drop hs)).trans (List.prefix_append _ _)
+  · rw [hm]
+    exact hsorted.sublist (List.drop_sublist _ _)
+  · intro r hr hv
+    rw [hp, epochOf_snoc]
+    exact Nat.le_succ_of_le (h.2.bound r (hmsgs ▸ hr) hv)
+  · intro r hr hl hv
+    obtain ⟨h1, h2⟩ := h.2.losing r (hmsgs ▸ hr) hl hv
+    refine ⟨h1, ?_⟩
+    rw [hp]
+    intro hx
+    rcases prefix_snoc_cases hx with ⟨z, _⟩ | z
+    · have := h.2.bound r (hmsgs ▸ hr) hv
+      rw [← z] at this
+      omega
+    · exact h2 z
+
+theorem li_rollbackTo {P : Path} {w : Nat} {LM : Nat → Prop} (c c1 : Cl) (ep : Nat) (hh : HInv c) (h : LI P w LM c)
+    (hr : rollbackTo c ep = some c1) : LI P w LM c1 := by
+  unfold rollbackTo at hr
+  split at hr
+  · cases hr
+  · rename_i i hi
+    split at hr
+    · cases hr
+    · rename_i s rest hd
+      cases hr
+      have hs : s ∈ c.mgr := List.mem_of_mem_drop (by rw [hd]; simp)
+      have hsplit : c.mgr = c.mgr.take i ++ s :: rest := by rw [← hd, List.take_append_drop]
+      have hsorted := h.1.sorted
+      rw [hsplit] at hsorted
+      obtain ⟨h1, _, h3⟩ := List.pairwise_append.mp hsorted
+      have hsep : s.epoch = ep := by
+        obtain ⟨s', hs1, hs2⟩ := findIdx_spec c.mgr ep i hi
+        rw [hd] at hs1
+        have : s = s' := by simpa using congrArg List.head? hs1
+        rw [this]; exact hs2
+      have hsp : epochOf s.saved.path = ep := by rw [← (hh.saved s hs).2.2]; exact hsep
+      have hrow : ∀ r' ∈ c.msgs.map (fun m => if m.epoch > ep then { m with state := 3 } else m), r'.state ≠ 3 →
+          r' ∈ c.msgs ∧ r'.epoch ≤ ep := by
+        intro r' hr' hv
+        obtain ⟨r, hr, rfl⟩ := List.mem_map.mp hr'
+        by_cases hgt : r.epoch > ep
+        · simp [hgt] at hv
+        · simp only [hgt, if_false] at hv ⊢
+          exact ⟨hr, by omega⟩
+      refine ⟨⟨fun t ht => h3 t ht s List.mem_cons_self, h1⟩, ⟨?_, ?_⟩⟩
+      · intro r' hr' hv
+        show r'.epoch ≤ epochOf s.saved.path
+        rw [hsp]; exact (hrow r' hr' hv).2
+      · intro r' hr' hl hv
+        obtain ⟨hm, _⟩ := hrow r' hr' hv
+        obtain ⟨a1, a2⟩ := h.2.losing r' hm hl hv
+        exact ⟨a1, fun hx => a2 (hx.trans (h.1.below s hs))⟩
+
+theorem li_notBetterResult {P : Path} {w : Nat} {LM : Nat → Prop} (c : Cl) (e : Ev) (h : LI P w LM c) :
+    LI P w LM (notBetterResult c e).1 := by
+  unfold notBetterResult
+  split
+  · split
+    · exact li_same h rfl rfl rfl
+    · exact li_same h rfl rfl rfl
+  · exact li_same h rfl rfl rfl
+
+theorem li_processCommit {P : Path} {w : Nat} {LM : Nat → Prop} (c : Cl) (e : Ev) (b : Body) (sw : List Nat)
+    (hk : e.kind = .commit b sw) (h : LI P w LM c) : LI P w LM (processCommit c e b sw).1 := by
+  have hp : (mergeCommit c.maxPast c.g e).path = c.g.path ++ [e.cipher] := (mergeCommit_path _ _ _ b sw hk).1
+  unfold processCommit
+  split
+  · exact li_same h rfl rfl rfl
+  · dsimp only
+    split
+    · exact li_extend h e e.cipher rfl rfl hp
+    · exact li_extend h e e.cipher rfl rfl (by
+        show (syncRec (ensureSecret (mergeCommit c.maxPast c.g e))).path = _
+        simp only [syncRec, ensureSecret_path]; exact hp)
+
+theorem li_wrongEpochCommit {P : Path} {w : Nat} {LM : Nat → Prop} (retry : Cl → Option (Cl × Res)) (c : Cl) (e : Ev)
+    (ee : Nat) (hh : HInv c) (h : LI P w LM c)
+    (hretry : ∀ c1 r, HInv c1 → LI P w LM c1 → c1.id = c.id → retry c1 = some r → LI P w LM r.1) :
+    LI P w LM (wrongEpochCommit retry c e ee).1 := by
+  unfold wrongEpochCommit
+  split
+  · split
+    · rename_i c1 hr
+      split
+      · rename_i r hrr
+        exact hretry c1 r (hinv_rollbackTo c c1 ee hh hr) (li_rollbackTo c c1 ee hh h hr) (frame_rollbackTo 0 c c1 ee hr).id hrr
+      · exact li_notBetterResult c e h
+    · exact li_notBetterResult c e h
+  · exact li_notBetterResult c e h
+
+theorem li_storeApp {P : Path} {w : Nat} {LM : Nat → Prop} (c : Cl) (e : Ev) (mid ts tok : Nat) (h : LI P w LM c)
+    (hpath : e.path <+: c.g.path) (hlose : LM mid → ∃ a, a ≠ w ∧ (P ++ [a]) <+: e.path) :
+    LI P w LM (storeApp c e mid ts tok).1 := by
+  obtain ⟨l, hl⟩ := updLast_eq c.g mid ts
+  have hp : (storeApp c e mid ts tok).1.g.path = c.g.path := by
+    show (updLast c.g mid ts).path = _
+    rw [hl]
+  refine ⟨⟨fun s hs => by rw [hp]; exact h.1.below s hs, h.1.sorted⟩, ⟨?_, ?_⟩⟩
+  · intro r hr hv
+    rw [hp]
+    rcases mem_upsertRow _ r c.msgs hr with rfl | x
+    · exact Nat.le_refl _
+    · exact h.2.bound r x hv
+  · intro r hr hlm hv
+    rw [hp]
+    rcases mem_upsertRow _ r c.msgs hr with rfl | x
+    · obtain ⟨a, ha, hpa⟩ := hlose hlm
+      have hpa' : P ++ [a] <+: c.g.path := hpa.trans hpath
+      refine ⟨?_, fun hx => ha (two_children hpa' hx)⟩
+      show epochOf P < epochOf c.g.path
+      have := hpa'.length_le
+      simp only [List.length_append, List.length_singleton] at this
+      simp only [epochOf]; omega
+    · exact h.2.losing r x hlm hv
+
+theorem li_step1 {P : Path} {w : Nat} {LM : Nat → Prop} (retry : Cl → Option (Cl × Res)) (nx : Nat) (c : Cl) (e : Ev)
+    (hf : e.sender ≠ c.id) (hlose : LosingEv P w LM e) (hh : HInv c) (h : LI P w LM c)
+    (hretry : ∀ c1 r, HInv c1 → LI P w LM c1 → c1.id = c.id → retry c1 = some r → LI P w LM r.1) :
+    LI P w LM (step1 retry nx c e).1 := by
+  have hhw := hinv_withSecret c hh
+  have hw : LI P w LM (withSecret c) := li_same h (ensureSecret_path _) rfl rfl
+  have hfb : (e.sender == c.id) = false := by simpa using hf
+  unfold step1
+  split
+  · exact li_same h rfl rfl rfl
+  · split
+    · exact li_same h rfl rfl rfl
+    simp only
+    split
+    · exact li_same hw rfl rfl rfl
+    · rename_i hopen
+      split
+      · -- commit
+        rename_i b sw hk
+        split
+        · exact li_wrongEpochCommit retry _ e _ hhw hw hretry
+        · split
+          · rename_i hown; simp [hfb] at hown
+          · split
+            · exact li_same hw rfl rfl rfl
+            · exact li_processCommit (consume (withSecret c) e.cipher) e _ _ hk (li_same hw rfl rfl rfl)
+      · -- leave
+        split
+        · exact li_same hw rfl rfl rfl
+        · split
+          · rename_i hown; simp [hfb] at hown
+          · split
+            · exact li_same hw rfl rfl rfl
+            · split
+              · exact li_same hw (by simp only [setRec, ensureSecret_path]) rfl rfl
+              · exact li_same hw rfl rfl rfl
+      · -- app
+        rename_i mid ts tok hk
+        split
+        · exact li_same hw rfl rfl rfl
+        · split
+          · exact li_same hw rfl rfl rfl
+          · split
+            · rename_i hown; simp [hfb] at hown
+            · split
+              · exact li_same hw rfl rfl rfl
+              · have hpre : e.path <+: (withSecret c).g.path := by
+                  apply Classical.byContradiction
+                  intro hn
+                  have := outerOpens_stale (withSecret c).g e hhw.sec hn
+                  rw [this] at hopen
+                  simp at hopen
+                exact li_storeApp (consume (withSecret c) e.cipher) e mid ts tok (li_same hw rfl rfl rfl) hpre
+                  (fun hm => hlose mid (appMid_of_kind hk) hm)
+
+theorem li_deliverOnce {P : Path} {w : Nat} {LM : Nat → Prop} (retry : Cl → Option (Cl × Res)) (nx : Nat) (c : Cl) (e : Ev)
+    (hf : e.sender ≠ c.id) (hlose : LosingEv P w LM e) (hh : HInv c) (h : LI P w LM c)
+    (hretry : ∀ c1 r, HInv c1 → LI P w LM c1 → c1.id = c.id → retry c1 = some r → LI P w LM r.1) :
+    LI P w LM (deliverOnce retry nx c e).1 := by
+  unfold deliverOnce
+  split
+  · split
+    · exact h
+    · exact li_step1 retry nx c e hf hlose hh h hretry
+  · exact li_step1 retry nx c e hf hlose hh h hretry
+
+/-- the invariant is kept by every delivery of a foreign event, for every state, event and fuel -/
+theorem li_deliverN {P : Path} {w : Nat} {LM : Nat → Prop} (fuel nx : Nat) (c : Cl) (e : Ev)
+    (hf : e.sender ≠ c.id) (hlose : LosingEv P w LM e) (hh : HInv c) (h : LI P w LM c) :
+    LI P w LM (deliverN fuel nx c e).1 := by
+  induction fuel generalizing c with
+  | zero => exact li_deliverOnce _ nx c e hf hlose hh h (by intro c1 r _ _ _ hr; cases hr)
+  | succ f ih =>
+    apply li_deliverOnce _ nx c e hf hlose hh h
+    intro c1 r hh1 h1 hid hr
+    cases hr
+    exact ih c1 (by rw [hid]; exact hf) hh1 h1
+
+theorem li_run {P : Path} {w : Nat} {LM : Nat → Prop} (nx : Nat) (l : List Ev) : ∀ c : Cl,
+    (∀ e ∈ l, e.sender ≠ c.id ∧ LosingEv P w LM e) → HInv c → LI P w LM c →
+    HInv (run nx c l) ∧ LI P w LM (run nx c l) := by
+  induction l with
+  | nil => intro c _ hh h; exact ⟨hh, h⟩
+  | cons e t ih =>
+    intro c hl hh h
+    obtain ⟨hf, hlose⟩ := hl e List.mem_cons_self
+    rw [run_cons]
+    refine ih _ ?_ (hinv_deliverN 3 nx c e hh) (li_deliverN 3 nx c e hf hlose hh h)
+    intro x hx
+    rw [(deliver_config nx c e).1]
+    exact hl x (List.mem_cons_of_mem _ hx)
+
 end MdkVerif.ChainMsg
